@@ -50,9 +50,10 @@ def make_score_class(names, table, prior_c=Fraction(0)):
     from pgmpy.estimators import StructureScore
 
     class TableScore(StructureScore):
-        def __init__(self, data):
+        def __init__(self, data, tab=None):
             super().__init__(data)
             self.calls = 0
+            self.tab = table if tab is None else tab
 
         def structure_prior_ratio(self, operation):
             # a graph prior that pays `prior_c` per arc (BDsScore does this with -log 2): adding an arc changes the log prior by +c,
@@ -65,7 +66,7 @@ def make_score_class(names, table, prior_c=Fraction(0)):
 
         def local_score(self, variable, parents):
             self.calls += 1
-            return float(Fraction(table[names.index(variable)][mask([names.index(p) for p in parents])]))
+            return float(Fraction(self.tab[names.index(variable)][mask([names.index(p) for p in parents])]))
     df = pd.DataFrame({nm: [0, 1] for nm in names})
     return TableScore(df), df
 
@@ -88,7 +89,7 @@ def gen_hc(rng, tier):
     return {"names": names, "n": n, "start": [list(e) for e in start], "scores": rand_table(rng, n), "black": black, "white": white,
             "fixed": fixed, "tabu": rng.choice([0, 0, 2, 100]), "eps": rs(rng.choice([Fraction(0), Fraction(1, 1024), Fraction(1), Fraction(1, 10000)])),
             "max_iter": rng.choice([1, 2, 5, 50, 50]), "max_indegree": rng.choice([None, None, 1, 2]),
-            "use_cache": rng.random() < .5, "prior_c": rs(rng.choice([Fraction(0), Fraction(0), Fraction(-45, 64), Fraction(3, 4), Fraction(-5, 2)]))}
+            "use_cache": rng.random() < .5, "form": rng.randrange(216), "warm": rng.choice([0, 0, rng.randrange(1, 10 ** 6)]), "prior_c": rs(rng.choice([Fraction(0), Fraction(0), Fraction(-45, 64), Fraction(3, 4), Fraction(-5, 2)]))}
 
 
 def run_hc(case, drv):
@@ -109,12 +110,28 @@ def run_hc(case, drv):
                 max_iter=case["max_iter"], max_indegree=case["max_indegree"])
     m = drv.call("hc_run", g={"nodes": list(range(n)), "edges": case["start"]}, scores=mscores, **opts)
     tags = dict(n=n, tabu=case["tabu"], moves=min(len(m["trace"]), 6), lists=bool(case["black"] or case["white"] or case["fixed"]))
+    form = case.get("form", 0)
+
+    def as_form(pairs_, k):
+        # the edge lists are documented as iterables: list, set, tuple, generator and one-shot iterator are all the same argument
+        pairs_ = [(names[u], names[v]) for u, v in pairs_]
+        return [pairs_, set(pairs_), tuple(pairs_), (e for e in pairs_), iter(pairs_), zip([a for a, _ in pairs_], [b for _, b in pairs_])][k % 6]
     try:
-        res = HillClimbSearch(df, use_cache=case["use_cache"]).estimate(
-            scoring_method=score, start_dag=start, fixed_edges={(names[u], names[v]) for u, v in case["fixed"]},
+        est = HillClimbSearch(df, use_cache=case["use_cache"])
+        if case.get("warm"):
+            # the same estimator object has searched before, with ANOTHER score object of the same class (a different table): the
+            # second search is a search for the score it is given
+            import random as _r
+            other = type(score)(df, rand_table(_r.Random(case["warm"]), n))          # same class, other parameters
+            try:
+                est.estimate(scoring_method=other, tabu_length=0, max_iter=3, show_progress=False)
+            except Exception:
+                pass
+        res = est.estimate(
+            scoring_method=score, start_dag=start, fixed_edges=as_form(case["fixed"], form),
             tabu_length=case["tabu"], max_indegree=case["max_indegree"],
-            black_list=[(names[u], names[v]) for u, v in case["black"]] or None,
-            white_list=[(names[u], names[v]) for u, v in case["white"]] if case["white"] is not None else None,
+            black_list=as_form(case["black"], form // 6) if case["black"] else None,
+            white_list=as_form(case["white"], form // 36) if case["white"] is not None else None,
             epsilon=float(Fraction(case["eps"])), max_iter=case["max_iter"], show_progress=False)
     except Exception as e:
         return fail(f"estimate raised {type(e).__name__}: {e}", **tags)
@@ -207,7 +224,7 @@ def run_bb(case, drv):
 def gen_exh(rng, tier):
     n = rng.randint(2, 4 if tier == "quick" else 4)
     return {"names": gen.node_names(rng, n, rng.choice(["str", "word"])), "n": n, "scores": rand_table(rng, n),
-            "use_cache": rng.random() < .5, "prior_c": rs(rng.choice([Fraction(0), Fraction(0), Fraction(-45, 64), Fraction(3, 4), Fraction(-5, 2)]))}
+            "use_cache": rng.random() < .5, "form": rng.randrange(216), "warm": rng.choice([0, 0, rng.randrange(1, 10 ** 6)]), "prior_c": rs(rng.choice([Fraction(0), Fraction(0), Fraction(-45, 64), Fraction(3, 4), Fraction(-5, 2)]))}
 
 
 def run_exh(case, drv):
